@@ -98,8 +98,8 @@ Proof.
   intros H. specialize (H witness_rooted).
   destruct witness_rooted_facts as (W & B & L & I & _ & N).
   rewrite N, I, L in H. cbn [length] in H.
-  assert (X : 0 = 2 * 1); [|discriminate].
-  apply H; auto; [|lia]. apply nodup4; discriminate.
+  assert (X : 0 = 2 * 1) by (apply H; auto; try lia; apply nodup4; discriminate).
+  discriminate.
 Qed.
 
 (** the hypotheses are satisfiable and the proposals exist: plain exchange and inversion *)
